@@ -13,6 +13,13 @@ RULE = ("operator x specifier version spelling (admissible and inadmissible form
         "harness from the generated version records (third leg); a === stream substitutes U+212A/U+0130/U+017F into the text; "
         "non-trivial = specifier and candidate both accepted")
 KINDS = ["str", "str", "obj", "sub"]
+ASSUMPTIONS = ["every number in a generated version has far fewer digits than int()'s 4300-digit conversion limit; the model has no digit limit (finding D10: "
+               "beyond it Version() raises InvalidVersion)"]
+TRUSTED_EXTRA = ["candidate objects (str / Version / Version subclass) and the way the object's pre-release setting is made (constructor keyword / attribute "
+                 "assignment) exist on the implementation side only: the model has one representation of each, the run checks the answers do not depend on them",
+                 "gen_spec.oracle (structured third leg) shares gen.rank with the C01 harness and is compared with the implementation only",
+                 "=== : the executable model lower-cases with VMeaning.py_lower; SpecArbFull proves it equal to the exact NamesX.lower_full on every text "
+                 "(Gen/LowerTable is re-validated against the interpreter by the C13 check)"]
 
 
 def confusable_cases(rng, out):
